@@ -451,8 +451,8 @@ const SOURCE_PATHS: [usize; 12] = [0, 1, 2, 3, 4, 5, 6, 7, 8, 15, 16, 17];
 
 /// Snippet choice biased to valid contents, so that most runs make progress between errors.
 pub fn gen_snippet(rng: &mut Rng) -> usize {
-    // index:                      0  1  2  3  4  5  6  7  8  9 10 11 12 13 14 15 16 17 18 19 20
-    const W: [u32; 21] = [8, 3, 8, 8, 6, 8, 6, 6, 2, 2, 2, 4, 6, 5, 2, 2, 6, 5, 6, 5, 4];
+    // index:                      0  1  2  3  4  5  6  7  8  9 10 11 12 13 14 15 16 17 18 19 20 21
+    const W: [u32; 22] = [8, 3, 8, 8, 6, 8, 6, 6, 2, 2, 2, 4, 6, 5, 2, 2, 6, 5, 6, 5, 4, 2];
     rng.weighted(&W)
 }
 
